@@ -168,7 +168,7 @@ def main(rep, tier, only):
                         st = T.show(T.norm(u, args[1]))
                         lam = T.unwrap(u, args[2])
                         inner = [q for op in (lam.get("ops", []) if lam and lam.get("k") == "lambda" else []) for (_, _, q) in L.calls_in(u, op.get("body"))]
-                        ok = "_initial" in st and any(q.endswith("::function") for q in inner)
+                        ok = fn["params"][0]["name"] in st and any(q.endswith("::function") for q in inner)
                         why = "fold does not start from the initial value or does not invoke item.function()"
             if ok:
                 rep.ok("SIG-ORDER", key, F.primary_site(fn), F.describe(fn), how="list-order")
